@@ -258,7 +258,7 @@ def run_check(pid, tier, seed, wall_cap=None, out_evidence=True, verbose=True):
                              "each clause discharged by check-sat of its negation under the path condition",
                 "repo_root": root,
                 "functions_encoded": functions,
-                "bounds": meta.get("bounds", {}).get(tier, meta.get("bounds", {})),
+                "bounds": (meta.get("bounds", {}).get(tier, meta.get("bounds")) if isinstance(meta.get("bounds"), dict) else meta.get("bounds", "")),
                 "outside_claim": meta.get("outside_claim", []),
                 "stubs": meta.get("stubs", []),
                 "queries": len(qs),
